@@ -8,6 +8,8 @@ use rosu_map::section::general::GameMode;
 use rosu_map::section::hit_objects::{CurveBuffers, HitObjectKind, HitObjects};
 use serde_json::{json, Value};
 
+pub const K6: &str = "c15.negative_zero_time";
+
 #[derive(Clone, Debug)]
 pub struct Doc {
     pub mode: u8,
@@ -23,18 +25,27 @@ fn ft(x: f64) -> String {
     format!("{x}")
 }
 
+/// t + k, but a shift of zero keeps the sign of -0
+fn sh(t: f64, k: f64) -> f64 {
+    if k == 0.0 {
+        t
+    } else {
+        t + k
+    }
+}
+
 pub fn render(d: &Doc, k: f64) -> String {
     let mut s = format!("osu file format v14\n\n[General]\nMode: {}\n\n[Difficulty]\nSliderMultiplier:{}\n\n[Events]\n", d.mode, d.sm);
     for (a, b) in &d.breaks {
-        s.push_str(&format!("2,{},{}\n", ft(a + k), ft(b + k)));
+        s.push_str(&format!("2,{},{}\n", ft(sh(*a, k)), ft(sh(*b, k))));
     }
     s.push_str("\n[TimingPoints]\n");
     for (t, rest) in &d.tps {
-        s.push_str(&format!("{},{rest}\n", ft(t + k)));
+        s.push_str(&format!("{},{rest}\n", ft(sh(*t, k))));
     }
     s.push_str("\n[HitObjects]\n");
     for (t, e, pre, rest) in &d.objs {
-        s.push_str(&format!("{pre},{},{}\n", ft(t + k), rest.replace("{E}", &e.map_or(String::new(), |e| ft(e + k)))));
+        s.push_str(&format!("{pre},{},{}\n", ft(sh(*t, k)), rest.replace("{E}", &e.map_or(String::new(), |e| ft(sh(e, k))))));
     }
     s
 }
@@ -155,21 +166,21 @@ pub fn check_rules(d: &Doc, k: f64) -> Result<(HitObjects, Outcome), String> {
     // reference pipeline
     let mut tm = TimingModel::new(d.mode, 0, 100);
     for (t, rest) in &d.tps {
-        tm.line(&format!("{},{rest}", ft(t + k)));
+        tm.line(&format!("{},{rest}", ft(sh(*t, k))));
     }
     tm.flush();
     let lists = tm.lists;
     let mut ctx = LineCtx::default();
     let mut objs: Vec<MObj> = vec![];
     for (t, e, pre, rest) in &d.objs {
-        let line = format!("{pre},{},{}", ft(t + k), rest.replace("{E}", &e.map_or(String::new(), |e| ft(e + k))));
+        let line = format!("{pre},{},{}", ft(sh(*t, k)), rest.replace("{E}", &e.map_or(String::new(), |e| ft(sh(e, k)))));
         match ho::parse_line(&mut ctx, &line) {
             Some(o) => objs.push(o),
             None => return Err(format!("generator produced a line the reference grammar rejects: {line}")),
         }
     }
-    // (1) stable order by start time
-    objs.sort_by(|a, b| a.time.total_cmp(&b.time));
+    // (1) stable order by start time: equal times (numerically, so -0 == 0) keep the file order
+    objs.sort_by(|a, b| a.time.partial_cmp(&b.time).unwrap());
     if got.hit_objects.len() != objs.len() {
         return Err(format!("{} objects decoded, {} lines accepted", got.hit_objects.len(), objs.len()));
     }
@@ -324,6 +335,37 @@ fn doc_json(d: &Doc, k: f64) -> Value {
     json!({"text": render(d, 0.0), "shift_ms": k})
 }
 
+/// probe for the known finding: some object times become 0 and -0
+pub fn gen_case_neg_zero(t: &mut Tape) -> (Doc, f64) {
+    let (mut d, _) = gen_case(t);
+    for o in d.objs.iter_mut() {
+        if t.chance(45) {
+            let e = o.1.map(|e| e - o.0);
+            o.0 = if t.chance(50) { -0.0 } else { 0.0 };
+            o.1 = e.map(|e| e.max(0.0));
+        }
+    }
+    (d, 0.0)
+}
+
+fn has_neg_zero(d: &Doc) -> bool {
+    d.objs.iter().any(|o| o.0 == 0.0 && o.0.is_sign_negative())
+}
+
+/// K6 classifier: an object time is -0 and the document passes once every -0 is written as 0
+pub fn classify_k6(d: &Doc, k: f64) -> bool {
+    if k != 0.0 || !has_neg_zero(d) {
+        return false;
+    }
+    let mut n = d.clone();
+    for o in n.objs.iter_mut() {
+        if o.0 == 0.0 {
+            o.0 = 0.0;
+        }
+    }
+    evaluate(&n, k, None).is_ok()
+}
+
 pub fn gen_case(t: &mut Tape) -> (Doc, f64) {
     let d = gen_doc(t);
     let k = match t.weighted(&[1, 3, 3]) {
@@ -352,7 +394,29 @@ pub fn evaluate(d: &Doc, k: f64, st: Option<&mut Stats>) -> Result<Outcome, Stri
 pub fn run(ctx: &mut Ctx) {
     ctx.rule = "cases are (generated map, integer shift k in [-10^6, 10^6]): sorted and unsorted object lines (each object carries its file index in its x coordinate; equal start times occur), breaks before / between / after objects and ending exactly at object times, timing and inherited points around object start / end times (-6, -5.125, -5, -4.875, -4, 0, +5 ms offsets to hit the leniency edge), all four modes, slider multipliers incl. the clamp edges; all times are multiples of 1/8 ms so shifting is exact. Oracle: (1) stable order by start time, (2) new combo after each break, (3) velocity = 100 x SM / (beat length x clamp(100/sv)/100) with the per-mode clamp and duration = spans x distance / velocity (REL 1e-9), (4) every object / node sample equals the line-level sample (reference grammar) completed from the sample point active 5 ms after the end / the node (reference timing model), (5) decode(shift_k(x)) equals decode(x) with all object, control-point and break times shifted by k and nothing else changed. Non-trivial = >= 1 slider, >= 1 inherited point, >= 1 break (and k != 0 for the shift relation); distinct by hash(text, k).".into();
     ctx.assumptions.push("the curve distance is taken from the implementation (C16/C17 check it); velocity is compared with REL 1e-9 and then reused for the node times so that a 1-ulp difference cannot flip a sample-point lookup".into());
+    ctx.assumptions.push("object times of -0 are generated only in the dedicated probe (known finding c15.negative_zero_time: total_cmp sorts -0 before 0)".into());
+    let open_k6 = ctx.open(K6);
     crate::props::replay_regress_generic(ctx, replay);
+    let probe = ctx.tier.pick(20_000u64, 200_000u64);
+    ctx.pbt("c15-probe-negzero", probe, 700, |t, st| {
+        let (d, k) = gen_case_neg_zero(t);
+        st.eval();
+        st.label("probe:-0 object times");
+        match evaluate(&d, k, Some(st)) {
+            Ok(_) => Ok(()),
+            Err(m) => {
+                if open_k6 && classify_k6(&d, k) {
+                    st.known(K6);
+                    return Ok(());
+                }
+                let hex: String = t.all_bytes().iter().map(|b| format!("{b:02x}")).collect();
+                let mut v = doc_json(&d, k);
+                v["replay_tape_hex"] = json!(hex);
+                v["probe"] = json!("neg_zero");
+                Err(Fail::json(m, &v))
+            }
+        }
+    });
     let cases = ctx.tier.pick(1_200_000u64, 8_000_000u64);
     ctx.pbt("c15-random", cases, 700, |t, st| {
         let (d, k) = gen_case(t);
@@ -384,14 +448,24 @@ pub fn run(ctx: &mut Ctx) {
     });
 }
 
-pub fn replay(_ctx: &mut Ctx, ext: &str, bytes: &[u8]) -> Result<Option<String>, Fail> {
+pub fn replay(ctx: &mut Ctx, ext: &str, bytes: &[u8]) -> Result<Option<String>, Fail> {
+    let mut probe = false;
     let tape: Vec<u8> = if ext == "tape" {
         bytes.to_vec()
     } else {
         let v: Value = serde_json::from_slice(bytes).map_err(|e| Fail::new(format!("bad JSON {e}"), "json", bytes.to_vec()))?;
+        probe = v["probe"].as_str() == Some("neg_zero");
         let hex = v["replay_tape_hex"].as_str().unwrap_or("");
         (0..hex.len() / 2).filter_map(|i| u8::from_str_radix(&hex[2 * i..2 * i + 2], 16).ok()).collect()
     };
-    let (d, k) = gen_case(&mut Tape::new(&tape));
-    evaluate(&d, k, None).map(|_| None).map_err(|m| Fail::json(m, &doc_json(&d, k)))
+    let (d, k) = if probe { gen_case_neg_zero(&mut Tape::new(&tape)) } else { gen_case(&mut Tape::new(&tape)) };
+    match evaluate(&d, k, None) {
+        Ok(_) => Ok(None),
+        Err(m) => {
+            if ctx.open(K6) && classify_k6(&d, k) {
+                return Ok(Some(K6.to_string()));
+            }
+            Err(Fail::json(m, &doc_json(&d, k)))
+        }
+    }
 }
